@@ -301,6 +301,21 @@ def _r6_scale(ctx):
             ctx.holds(fi, fi.node, "%s: %d comparison(s), all on indices / counts" % (fi.name, sn))
     if total < 10:
         raise AnalysisError("only %d comparisons found in the gradient module" % total)
+    # ... and no fixed additive constant on a coordinate-derived matrix (a ridge 1e-10 * I on normal equations whose entries
+    # scale with the squared edge length biases the gradient by 1e-10 / h^2), no closeness test, no rounding
+    from .. import tolerance
+    if not tolerance.selfcheck():
+        raise AnalysisError("absolute-tolerance helper: built-in example not matched")
+    for key, fi in sorted(prog.functions.items()):
+        if fi.module.name != "pylife.mesh.gradient" or fi.parent is not None:
+            continue
+        for node, kind, text in tolerance.absolute_tolerances(fi.node):
+            if kind == "threshold":
+                continue                      # (decided above)
+            ctx.violated(fi, node, "%s: %s applies an absolute %s to a quantity computed from the node coordinates: the gradient "
+                         "then depends on the length unit of the mesh (bias of the order constant / h^2)" %
+                         (fi.name, text[:80], {"offset": "additive constant", "close": "closeness test", "round": "rounding"}[kind]),
+                         text="absolute tolerance " + text[:60])
 
 
 def _fixed_order(prog, fi, e, depth=0):
